@@ -79,15 +79,28 @@ type GuardSpec struct {
 }
 
 type EventDecl struct {
+	Name    string
+	Fields  []string // names
+	Sorts   []string
+	GoTypes []string // optional Go type per field ("ctx Ref as *Context")
+	Pkg     string
+}
+
+// GhostDef: a (possibly recursive) definition of a ghost function; instances
+// are added only by explicit `unfold f(args)` ghost statements.
+type GhostDef struct {
 	Name   string
-	Fields []string // names
-	Sorts  []string
+	Params []string
+	Body   string
+	Pkg    string
 }
 
 type GhostVar struct {
-	Name string
-	Sort string
-	Init string
+	Name   string
+	Sort   string
+	Init   string
+	GoType string // optional ("ghost var curproc Ref as *process")
+	Pkg    string
 }
 
 type GhostFun struct {
@@ -107,6 +120,7 @@ type ContractFile struct {
 	Events    []*EventDecl
 	GhostVars []*GhostVar
 	GhostFuns []*GhostFun
+	GhostDefs map[string]*GhostDef
 	Axioms    []*Clause
 	Private   []string // heap-name prefixes user code cannot modify
 	Lemmas    []*Lemma
@@ -296,14 +310,20 @@ func ParseContracts(pkgPath, path, src string) (*ContractFile, error) {
 		case "event":
 			// event Deliver(fn Ref, ctx Ref)
 			k := strings.Index(rest, "(")
-			ev := &EventDecl{Name: strings.TrimSpace(rest[:k])}
+			ev := &EventDecl{Name: strings.TrimSpace(rest[:k]), Pkg: pkgPath}
 			for _, f := range splitComma(rest[k+1 : strings.LastIndex(rest, ")")]) {
+				gt := ""
+				if j := strings.Index(f, " as "); j >= 0 {
+					gt = strings.TrimSpace(f[j+4:])
+					f = f[:j]
+				}
 				parts := strings.Fields(f)
 				if len(parts) != 2 {
 					return nil, errf("bad event field %q", f)
 				}
 				ev.Fields = append(ev.Fields, parts[0])
 				ev.Sorts = append(ev.Sorts, parts[1])
+				ev.GoTypes = append(ev.GoTypes, gt)
 			}
 			cf.Events = append(cf.Events, ev)
 			cur, curLoop, curGuard, curLemma = nil, nil, nil, nil
@@ -343,7 +363,11 @@ func ParseContracts(pkgPath, path, src string) (*ContractFile, error) {
 				if len(f) < 2 {
 					return nil, errf("bad ghost var")
 				}
-				gv := &GhostVar{Name: f[0], Sort: f[1]}
+				gv := &GhostVar{Name: f[0], Sort: f[1], Pkg: pkgPath}
+				if j := strings.Index(rest, " as "); j >= 0 {
+					gv.GoType = strings.TrimSpace(rest[j+4:])
+					rest = strings.TrimSpace(rest[:j])
+				}
 				if j := strings.Index(rest, "="); j >= 0 {
 					gv.Init = strings.TrimSpace(rest[j+1:])
 					// sort may contain spaces e.g. (Array Int Event)
@@ -354,11 +378,39 @@ func ParseContracts(pkgPath, path, src string) (*ContractFile, error) {
 				cf.GhostVars = append(cf.GhostVars, gv)
 				continue
 			}
+			if strings.HasPrefix(rest, "def ") {
+				// ghost def name(a, b) := body
+				j := strings.Index(rest, ":=")
+				if j < 0 {
+					return nil, errf("ghost def needs :=")
+				}
+				hd := strings.TrimSpace(rest[4:j])
+				k := strings.Index(hd, "(")
+				if k < 0 {
+					return nil, errf("ghost def needs params")
+				}
+				gd := &GhostDef{Name: strings.TrimSpace(hd[:k]), Params: splitComma(hd[k+1 : strings.LastIndex(hd, ")")]), Body: strings.TrimSpace(rest[j+2:]), Pkg: pkgPath}
+				if cf.GhostDefs == nil {
+					cf.GhostDefs = map[string]*GhostDef{}
+				}
+				cf.GhostDefs[gd.Name] = gd
+				continue
+			}
 			if strings.HasPrefix(rest, "func ") {
 				r := strings.TrimSpace(rest[5:])
 				k := strings.Index(r, "(")
-				k2 := strings.Index(r, ")")
-				gf := &GhostFun{Name: strings.TrimSpace(r[:k]), Args: splitComma(r[k+1 : k2]), Ret: strings.TrimSpace(r[k2+1:]), Pkg: pkgPath}
+				k2 := k
+				for d := 0; k2 < len(r); k2++ {
+					if r[k2] == '(' {
+						d++
+					} else if r[k2] == ')' {
+						d--
+						if d == 0 {
+							break
+						}
+					}
+				}
+				gf := &GhostFun{Name: strings.TrimSpace(r[:k]), Args: splitTopComma(r[k+1 : k2]), Ret: strings.TrimSpace(r[k2+1:]), Pkg: pkgPath}
 				if j := strings.Index(gf.Ret, " as "); j >= 0 {
 					gf.GoType = strings.TrimSpace(gf.Ret[j+4:])
 					gf.Ret = strings.TrimSpace(gf.Ret[:j])
@@ -453,6 +505,8 @@ func ParseContracts(pkgPath, path, src string) (*ContractFile, error) {
 				cur.Unfold = append(cur.Unfold, rest)
 			case "emits":
 				cur.Emits = append(cur.Emits, rest)
+			case "emits_ok":
+				cur.EmitsOK = append(cur.EmitsOK, rest)
 			default:
 				return nil, errf("unknown clause %q", kw)
 			}
